@@ -65,7 +65,7 @@ def units(tier):
     out.append({'kind': 'mapper', 'indices': [1, 0], 'depth': 7 if tier == 'quick' else 10})
     out.append({'kind': 'manager', 'depth': 6 if tier == 'quick' else 8})
     out.append({'kind': 'sweep', 'upto': 1700 if tier == 'quick' else 5000})
-    out.append({'kind': 'churn', 'lives': 40 if tier == 'quick' else 260})
+    out.append({'kind': 'churn', 'lives': 260})
     return out
 
 
